@@ -18,15 +18,12 @@ _TARGETS = {
 
 
 def _eq(a, b):
+    """Exact (all generated costs are dyadic rationals far below 2**53)."""
     try:
         if a == b:
             return True
-        if isinstance(a, (int, float)) and isinstance(b, (int, float)):
-            if math.isnan(a) and math.isnan(b):
-                return True
-            if math.isinf(a) or math.isinf(b):
-                return False
-            return abs(a - b) <= 1e-9 * max(1.0, abs(a), abs(b))
+        if a != a and b != b:
+            return True
     except Exception:
         pass
     try:
